@@ -12,8 +12,8 @@ RULE = (
     "{None,0,1,2,3,5,8,50} ticks, scheduler=TestScheduler from vlib.lab.Lab); commands run at top level, 'adv' drains the "
     "scheduler then advances the clock, so subscribe/emit/unsubscribe may pile up in one instant before a drain; observers "
     "may unsubscribe themselves / a plain observer / subscribe a new observer inside their k-th callback. Enumerated: every "
-    "sequence of length <= 4 (quick) / <= 5 (thorough) over an 8-symbol alphabet for buffer_size in {None,0,1,2} x window in "
-    "{None,0,1,2}. Oracle: explicit model keeping the full (time,value) history; a subscriber's queue starts with "
+    "sequence of length <= 4 for buffer_size in {None,0,1} x window in {None,0,1} (quick) / <= 5 for buffer_size in "
+    "{None,0,1,2} x window in {None,0,1,2} (thorough) over an 8-symbol alphabet. Oracle: explicit model keeping the full (time,value) history; a subscriber's queue starts with "
     "retained = the last buffer_size values whose age (now - emission time) is <= window at subscription, then the terminal "
     "if one occurred, then every later notification; compared after EVERY command incl. each drain and a final drain "
     "(delivered lists exact; for an observer unsubscribed by ANOTHER observer during a drain: a prefix of its queue, no "
@@ -44,8 +44,11 @@ def _run(case):
 
 
 def _enum(tier):
+    if tier == "quick":
+        cfgs = [{"buf": b, "win": w} for b in (None, 0, 1) for w in (None, 0, 1)]
+        return enumerate_histories(_ALPHABET, cfgs, 4)
     cfgs = [{"buf": b, "win": w} for b in (None, 0, 1, 2) for w in (None, 0, 1, 2)]
-    return enumerate_histories(_ALPHABET, cfgs, 4 if tier == "quick" else 5)
+    return enumerate_histories(_ALPHABET, cfgs, 5)
 
 
 def checks(tier):
